@@ -80,10 +80,10 @@ theorem batch_proto (P : Proto) (p : J) (ps : List J) (rid : J)
   | null | bool _ | int _ | float _ | str _ => simp [payloadToItem] at h
 
 /-- the decoder proper never raises anything but `ProtocolError`
-(C04 `decode_only_protocol_errors`) -/
+(C04 `decode_only_protocol_errors`, through its core lemma: C05 must not depend on C04's facts) -/
 theorem payloadToItem_noPy (P : Proto) (p : J) : NoPy (payloadToItem P p) := by
   intro e he
-  rcases decode_only_protocol_errors P p with ⟨x, hx⟩ | ⟨pe, hx, _⟩
+  rcases decode_only_protocol_errors_core P p with ⟨x, hx⟩ | ⟨pe, hx, _⟩
   · rw [hx] at he; cases he
   · rw [hx] at he; cases he
 
@@ -357,6 +357,18 @@ where
           · rw [heq]
             exact .errorWithReply c _ (.batch parts) rfl rfl ⟨hne', hparts⟩
 
+/-- the error replies the theorems speak of are in the wire format of the protocol in force:
+2.0 — `"jsonrpc":"2.0"`, an `error` object with an integer code and a string message, no
+`result`; 1.0 — `"result": null` and the `error` object; both carry an `id` member -/
+theorem error_reply_conforms (P : Proto) (reply : J) (h : IsErrorReply P reply) :
+    ∃ kvs code msg rid, reply = .obj kvs
+      ∧ J.lookup kError kvs = some (errorObj (.int code) (.str msg))
+      ∧ J.lookup kId kvs = some rid
+      ∧ (P ≠ .v1 → J.lookup kJsonrpc kvs = some s20 ∧ J.lookup kResult kvs = none)
+      ∧ (P = .v1 → J.lookup kResult kvs = some .null) := by
+  obtain ⟨code, msg, rid, rfl⟩ := h
+  cases P <;> exact ⟨_, code, msg, rid, rfl, by lk, by lk, by intro h; first | exact absurd rfl h | exact ⟨by lk, by lk⟩,
+    by intro h; first | exact absurd h (by decide) | lk⟩
 /-! ## The property's clauses as corollaries -/
 
 /-- **only_protocol_error** — handing a connection any bytes has two outcomes: items to process
